@@ -870,3 +870,291 @@ Lemma nan_object_witness :
   gen_deep_eq Witness.E Witness.M Witness.nan_x Witness.nan_x = true /\ same Witness.nan_x Witness.nan_x = false /\
   shared_okb Witness.nan_x Witness.nan_x = false.
 Proof. vm_compute. repeat split. Qed.
+
+(* ------------------------------------------------------------------ deep copies *)
+
+Lemma all2_map_r {A B C} (f : A -> C -> bool) (g : B -> C) la lb :
+  all2 f la (map g lb) = all2 (fun a b => f a (g b)) la lb.
+Proof. revert lb. induction la as [|a la IH]; intros [|b lb]; cbn; auto. f_equal. auto. Qed.
+
+Lemma existsb_map {A B} (f : B -> bool) (g : A -> B) l : existsb f (map g l) = existsb (fun a => f (g a)) l.
+Proof. induction l as [|a l IH]; cbn; auto. f_equal. auto. Qed.
+
+Lemma forallb_map {A B} (f : B -> bool) (g : A -> B) l : forallb f (map g l) = forallb (fun a => f (g a)) l.
+Proof. induction l as [|a l IH]; cbn; auto. f_equal. auto. Qed.
+
+(* the specification does not look at addresses *)
+Lemma is_empty_map {A B} (g : A -> B) l : is_empty (map g l) = is_empty l.
+Proof. destruct l; reflexivity. Qed.
+
+Lemma same_readdr_r d : forall x y, same x (readdr d y) = same x y.
+Proof.
+  induction x using hval_ind'; intros y; destruct y; cbn [same readdr]; auto using is_empty_map.
+  - rewrite all2_map_r. apply all2_ext_in. intros a b Ha Hb. rewrite Forall_forall in H. apply H; auto.
+  - rewrite Forall_forall in H. rewrite map_length. f_equal; [f_equal|].
+    + apply forallb_ext_in. intros kv Hi. rewrite existsb_map. apply existsb_ext_in. intros kv' Hi'. cbn [fst snd].
+      destruct (H kv Hi) as [Hk Hv]. rewrite Hk, Hv. reflexivity.
+    + rewrite forallb_map. apply forallb_ext_in. intros kv' Hi'. apply existsb_ext_in. intros kv Hi. cbn [fst snd].
+      destruct (H kv Hi) as [Hk Hv]. rewrite Hk, Hv. reflexivity.
+  - rewrite all2_map_r. apply all2_ext_in. intros p q Hp Hq. cbn [fst snd]. rewrite Forall_forall in H.
+    f_equal. apply H; auto.
+Qed.
+
+Lemma hkey_eq_readdr d a b : hkey_eq (readdr d a) (readdr d b) = hkey_eq a b.
+Proof.
+  destruct a, b; cbn; auto.
+  destruct (Z.eqb_spec a a0), (Z.eqb_spec (a + d) (a0 + d)); auto; lia.
+Qed.
+
+Lemma keyable_readdr d k : keyable (readdr d k) = keyable k.
+Proof. destruct k; reflexivity. Qed.
+
+Lemma has_dup_map {A} (eq : A -> A -> bool) (g : A -> A) l :
+  (forall a b, eq (g a) (g b) = eq a b) -> has_dup eq (map g l) = has_dup eq l.
+Proof.
+  intros Hg. induction l as [|a l IH]; cbn; auto. rewrite IH. f_equal.
+  rewrite existsb_map. apply existsb_ext_in. intros b _. apply Hg.
+Qed.
+
+Definition Qshape (e : env) (d : Z) (x : hval) : Prop :=
+  forall t k, shape e k t (readdr d x) = shape e k t x.
+Definition Pshape (e : env) (d : Z) (x : hval) : Prop :=
+  Qshape e d x /\ match x with HSome _ u => Qshape e d u | _ => True end.
+
+Lemma shape_readdr_all e d : forall x, Pshape e d x.
+Proof.
+  induction x using hval_ind'; (split; [|exact I || auto]); try (intros t k; reflexivity).
+  - intros t k. cbn [readdr shape]. destruct t; auto; rewrite forallb_map; apply forallb_ext_in; intros a Ha;
+      rewrite Forall_forall in H; apply (proj1 (H a Ha)).
+  - intros t k. cbn [readdr shape]. destruct t; auto. rewrite Forall_forall in H. f_equal.
+    + rewrite forallb_map. apply forallb_ext_in. intros kv Hi. cbn [fst snd].
+      destruct (H kv Hi) as [[Hk _] [Hv _]]. rewrite keyable_readdr, Hk, Hv. reflexivity.
+    + f_equal. rewrite map_map. cbn [fst]. rewrite <- (map_map fst (readdr d)).
+      apply has_dup_map. apply hkey_eq_readdr.
+  - intros t k. cbn [readdr shape]. destruct t; auto. destruct (find_struct e name) as [s|]; auto.
+    rewrite Forall_forall in H. f_equal.
+    + f_equal. rewrite map_map. apply map_ext. reflexivity.
+    + rewrite forallb_map. apply forallb_ext_in. intros p Hp. cbn [fst snd].
+      destruct (find_field (fst p) (s_fields s)) as [f|]; auto.
+      destruct (H p Hp) as [Hq1 Hq2].
+      destruct (base_ptr f).
+      * destruct (snd p); cbn [readdr]; auto.
+      * apply Hq1.
+  - destruct IHx. auto.
+Qed.
+
+Lemma shape_readdr e d k t x : shape e k t (readdr d x) = shape e k t x.
+Proof. apply (proj1 (shape_readdr_all e d x)). Qed.
+
+Lemma is_base_readdr d k : is_base_hval (readdr d k) = is_base_hval k.
+Proof. destruct k; reflexivity. Qed.
+
+Lemma no_struct_keys_readdr d : forall x, no_struct_keys (readdr d x) = no_struct_keys x.
+Proof.
+  induction x using hval_ind'; cbn [readdr no_struct_keys]; auto.
+  - rewrite forallb_map. apply forallb_ext_in. intros a Ha. rewrite Forall_forall in H. auto.
+  - rewrite forallb_map. apply forallb_ext_in. intros kv Hi. cbn [fst snd]. rewrite Forall_forall in H.
+    rewrite is_base_readdr. f_equal. apply (H kv Hi).
+  - rewrite forallb_map. apply forallb_ext_in. intros p Hp. cbn [fst snd]. rewrite Forall_forall in H. auto.
+Qed.
+
+Lemma disjoint_shared_ok x y : disjointb x y = true -> shared_okb x y = true.
+Proof.
+  unfold disjointb, shared_okb. intros H. apply forallb_forall. intros p Hp.
+  apply forallb_forall. intros q Hq. rewrite (forallb_In _ _ (forallb_In _ _ H p Hp) q Hq). reflexivity.
+Qed.
+
+(* a deep copy into fresh objects is DeepEqual to the original: NaN-free, no struct-typed map keys *)
+Theorem deep_copy_equal e k t x d :
+  shape e k t x = true -> no_struct_keys x = true -> nan_free x = true ->
+  disjointb x (readdr d x) = true ->
+  deq e t x (readdr d x) = true.
+Proof.
+  intros Hs Hn Hf Hd.
+  rewrite (proj1 (deq_same_all e x) t k k (readdr d x)).
+  - rewrite same_readdr_r. apply same_refl. exact Hf.
+  - exact Hs.
+  - rewrite shape_readdr. exact Hs.
+  - exact Hn.
+  - rewrite no_struct_keys_readdr. exact Hn.
+  - apply shared_okb_ok, disjoint_shared_ok. exact Hd.
+Qed.
+
+(* ------------------------------------------------------------------ all shaped values: keys by Go identity *)
+
+Lemma same_pk_refl : forall x, nan_free x = true -> keys_ok x = true -> same_pk x x = true.
+Proof.
+  induction x using hval_ind'; cbn [nan_free keys_ok same_pk]; intros Hn Hk; auto using Z.eqb_refl, beqb_refl.
+  - destruct b; reflexivity.
+  - apply feq_refl. apply negb_true_iff. exact Hn.
+  - apply all2_refl. intros a Ha. rewrite Forall_forall in H. apply H; auto; eapply forallb_In; eauto.
+  - rewrite Nat.eqb_refl. cbn [andb]. rewrite Forall_forall in H.
+    assert (Hw : forall kv, In kv m -> hkey_eq (fst kv) (fst kv) && same_pk (snd kv) (snd kv) = true).
+    { intros kv Hi. destruct (H kv Hi) as [_ Hv]. pose proof (forallb_In _ _ Hn _ Hi) as N1.
+      pose proof (forallb_In _ _ Hk _ Hi) as K1. cbn beta in N1, K1.
+      apply andb_true_iff in N1 as [Nk Nv]. apply andb_true_iff in K1 as [K1 Kv]. apply andb_true_iff in K1 as [Ky Kk].
+      rewrite (keyable_refl _ Ky Nk), Hv; auto. }
+    apply andb_true_iff. split; apply forallb_forall; intros kv Hi; apply existsb_exists; exists kv; auto.
+  - apply all2_refl. intros p Hp. rewrite Forall_forall in H. rewrite Z.eqb_refl. cbn [andb].
+    apply H; auto; [apply (forallb_In _ _ Hn p Hp)|apply (forallb_In _ _ Hk p Hp)].
+Qed.
+
+Definition heap_ok (x y : hval) : Prop :=
+  forall a u w, In (a, u) (ptrs x) -> In (a, w) (ptrs y) -> u = w /\ nan_free u = true /\ keys_ok u = true.
+
+Lemma heap_ok_incl x y x' y' :
+  incl (ptrs x') (ptrs x) -> incl (ptrs y') (ptrs y) -> heap_ok x y -> heap_ok x' y'.
+Proof. intros Hx Hy H a u w Hu Hw. apply (H a u w); auto. Qed.
+
+Lemma heap_okb_ok x y : heap_okb x y = true -> heap_ok x y.
+Proof.
+  unfold heap_okb. intros H a u w Hu Hw.
+  apply (forallb_In _ _ H) in Hu. apply (forallb_In _ _ Hu) in Hw. cbn [fst snd] in Hw.
+  rewrite Z.eqb_refl in Hw. cbn in Hw. apply andb_true_iff in Hw as [Hw H3]. apply andb_true_iff in Hw as [H1 H2].
+  repeat split; auto. apply heqb_eq. exact H1.
+Qed.
+
+Lemma heap_same a u w x y :
+  heap_ok x y -> In (a, u) (ptrs x) -> In (a, w) (ptrs y) -> same_pk u w = true.
+Proof. intros H Hu Hw. destruct (H a u w Hu Hw) as [<- [Hn Hk]]. apply same_pk_refl; auto. Qed.
+
+Definition Qpk (e : env) (x : hval) : Prop :=
+  forall t kx ky y, shape e kx t x = true -> shape e ky t y = true -> heap_ok x y ->
+    deq e t x y = same_pk x y.
+Definition Ppk (e : env) (x : hval) : Prop :=
+  Qpk e x /\ match x with HSome _ u => Qpk e u | _ => True end.
+
+Lemma deq_same_pk_all e : forall x, Ppk e x.
+Proof.
+  induction x using hval_ind'; (split; [|exact I || auto]).
+  - intros t kx ky y Hx Hy _; destruct t; cbn in Hx; try discriminate; destruct y; cbn in Hy; try discriminate.
+    reflexivity.
+  - intros t kx ky y Hx Hy _; destruct t; cbn in Hx; try discriminate; destruct y; cbn in Hy; try discriminate;
+      reflexivity.
+  - intros t kx ky y Hx Hy _; destruct t; cbn in Hx; try discriminate; destruct y; cbn in Hy; try discriminate.
+    reflexivity.
+  - intros t kx ky y Hx Hy _; destruct t; cbn in Hx; try discriminate; destruct y; cbn in Hy; try discriminate.
+    reflexivity.
+  - intros t kx ky y Hx Hy _; destruct t; cbn in Hx; try discriminate; destruct y; cbn in Hy; try discriminate.
+    + reflexivity.
+    + cbn. apply beqb_nil_r.
+  - (* list *)
+    intros t kx ky y Hx Hy Hs. destruct (shape_list _ _ _ _ Hx) as [et [Ht Hl]].
+    destruct y; try (destruct Ht; subst; cbn in Hy; discriminate).
+    + destruct (shape_list _ _ _ _ Hy) as [et' [Ht' Hl']].
+      assert (et' = et) by (destruct Ht, Ht'; congruence). subst et'.
+      rewrite (deq_list_unfold true e t et l l0 Ht). cbn [same_pk].
+      apply all2_ext_in. intros a b Ha Hb.
+      rewrite Forall_forall in H. destruct (H a Ha) as [Hq _].
+      apply (Hq et false false b); eauto using forallb_In.
+      eapply heap_ok_incl; [apply ptrs_list_incl; eassumption|apply ptrs_list_incl; eassumption|exact Hs].
+    + destruct Ht; subst; reflexivity.
+  - (* map *)
+    intros t kx ky y Hx Hy Hs. destruct (shape_map _ _ _ _ Hx) as [kt [vt [-> [Hm Hnd]]]].
+    destruct y; try (cbn in Hy; discriminate).
+    + destruct (shape_map _ _ _ _ Hy) as [kt' [vt' [Ht' [Hm' Hnd']]]]. inversion Ht'; subst kt' vt'.
+      rewrite deq_map_unfold. cbn [same_pk].
+      rewrite Forall_forall in H.
+      assert (Hpt : forall kv kv', In kv m -> In kv' kvs ->
+                hkey_eq (fst kv) (fst kv') && same_pk (snd kv) (snd kv') =
+                hkey_eq (fst kv) (fst kv') && deq e vt (snd kv) (snd kv')).
+      { intros kv kv' Hi Hi'. destruct (H kv Hi) as [_ [Hq _]].
+        pose proof (forallb_In _ _ Hm _ Hi) as S1. pose proof (forallb_In _ _ Hm' _ Hi') as S2.
+        apply andb_true_iff in S1 as [_ S1], S2 as [_ S2].
+        f_equal. symmetry. apply (Hq vt false false); auto.
+        destruct kv as [k v], kv' as [k' v'].
+        eapply heap_ok_incl; [eapply ptrs_map_val_incl; eassumption|eapply ptrs_map_val_incl; eassumption|exact Hs]. }
+      rewrite (forallb_ext_in _ (fun kv => existsb (fun kv' => hkey_eq (fst kv) (fst kv') && deq e vt (snd kv) (snd kv')) kvs) m)
+        by (intros kv Hi; apply existsb_ext_in; intros kv' Hi'; auto).
+      rewrite <- (mapcmp_exists (deq e vt) m kvs Hnd').
+      rewrite (forallb_ext_in _ (fun kv' => existsb (fun kv => hkey_eq (fst kv') (fst kv) && deq e vt (snd kv) (snd kv')) m) kvs)
+        by (intros kv' Hi'; apply existsb_ext_in; intros kv Hi; rewrite (hkey_eq_sym (fst kv')); auto).
+      rewrite <- (mapcmp_exists (fun w v => deq e vt v w) kvs m Hnd).
+      destruct (length m =? length kvs)%nat eqn:L; cbn [andb]; auto. apply Nat.eqb_eq in L.
+      destruct (mapcmp (deq e vt) m kvs) eqn:C; cbn [andb]; auto.
+      symmetry. apply mapcmp_swap; auto.
+    + reflexivity.
+  - (* struct *)
+    intros t kx ky y Hx Hy Hsh. destruct (shape_struct _ _ _ _ _ Hx) as [n [s [-> [Hs [Hids Hsl]]]]].
+    destruct y; try (cbn in Hy; discriminate).
+    + destruct (shape_struct _ _ _ _ _ Hy) as [n' [s' [Ht' [Hs' [Hids' Hsl']]]]]. inversion Ht'; subst n'.
+      rewrite Hs in Hs'. inversion Hs'; subst s'.
+      rewrite deq_struct_unfold, Hs. destruct (a =? a0) eqn:Ea.
+      * apply Z.eqb_eq in Ea. subst a0. symmetry.
+        apply (heap_same a _ _ _ _ Hsh); cbn [ptrs]; left; reflexivity.
+      * cbn [same_pk]. apply all2_ext_in. intros p q Hp Hq.
+        unfold slot_cmp. destruct (fst p =? fst q) eqn:E; cbn [andb]; auto.
+        apply Z.eqb_eq in E.
+        pose proof (forallb_In _ _ Hsl _ Hp) as Sp. pose proof (forallb_In _ _ Hsl' _ Hq) as Sq.
+        unfold slot_shape in Sp, Sq. rewrite <- E in Sq.
+        destruct (find_field (fst p) (s_fields s)) as [f|]; try discriminate.
+        rewrite Forall_forall in H. destruct (H p Hp) as [Hq1 Hq2].
+          assert (Hsub : heap_ok (snd p) (snd q)).
+        { eapply heap_ok_incl; [apply ptrs_struct_incl; eassumption|apply ptrs_struct_incl; eassumption|exact Hsh]. }
+        unfold deq_slot. destruct (base_ptr f).
+        -- destruct (snd p) eqn:Ep; try discriminate; destruct (snd q) eqn:Eq; try discriminate; auto.
+           cbn [same_pk]. destruct (a1 =? a2) eqn:Eb; cbn [orb].
+           ++ apply Z.eqb_eq in Eb. subst a2. symmetry.
+              assert (Hw : same_pk (HSome a1 h) (HSome a1 h0) = true)
+                by (apply (heap_same a1 _ _ _ _ Hsub); cbn [ptrs]; left; reflexivity).
+              exact Hw.
+           ++ apply (Hq2 (f_ty f) false false); auto.
+              eapply heap_ok_incl; [apply ptrs_some_incl|apply ptrs_some_incl|exact Hsub].
+        -- apply (Hq1 (f_ty f) false false); auto.
+    + reflexivity.
+  - (* nil *)
+    intros t kx ky y Hx Hy _; destruct t; cbn in Hx; try discriminate; destruct y; cbn in Hy; try discriminate;
+      cbn; auto using beqb_nil_l; try (destruct l; reflexivity); try (destruct kvs; reflexivity).
+  - (* some *)
+    intros t kx ky y Hx. cbn in Hx. discriminate.
+  - destruct IHx. auto.
+Qed.
+
+
+(* on every pair of shaped values with a consistent heap, struct-typed map keys included, the generated
+   comparison is structural equality with keys matched by Go identity *)
+Theorem deq_same_pk e t kx ky x y :
+  shape e kx t x = true -> shape e ky t y = true -> heap_okb x y = true -> deq e t x y = same_pk x y.
+Proof. intros Hx Hy Hh. eapply (proj1 (deq_same_pk_all e x)); eauto using heap_okb_ok. Qed.
+
+(* and without struct-typed keys that is plain structural equality *)
+Lemma same_pk_same : forall x y, no_struct_keys x = true -> no_struct_keys y = true -> same_pk x y = same x y.
+Proof.
+  induction x using hval_ind'; intros y Nx Ny; destruct y; cbn [same same_pk]; auto; cbn [no_struct_keys] in Nx, Ny; auto.
+  - apply all2_ext_in. intros a b Ha Hb. rewrite Forall_forall in H.
+    apply H; [exact Ha|apply (forallb_In _ _ Nx a Ha)|apply (forallb_In _ _ Ny b Hb)].
+  - rewrite Forall_forall in H. f_equal; [f_equal|].
+    + apply forallb_ext_in. intros kv Hi. apply existsb_ext_in. intros kv' Hi'.
+      pose proof (forallb_In _ _ Nx _ Hi) as N1. pose proof (forallb_In _ _ Ny _ Hi') as N2. cbn beta in N1, N2.
+      apply andb_true_iff in N1 as [B1 N1], N2 as [B2 N2].
+      rewrite (same_key_base _ _ B1 B2). f_equal. apply (proj2 (H kv Hi)); auto.
+    + apply forallb_ext_in. intros kv' Hi'. apply existsb_ext_in. intros kv Hi.
+      pose proof (forallb_In _ _ Nx _ Hi) as N1. pose proof (forallb_In _ _ Ny _ Hi') as N2. cbn beta in N1, N2.
+      apply andb_true_iff in N1 as [B1 N1], N2 as [B2 N2].
+      rewrite (same_key_base _ _ B1 B2). f_equal. apply (proj2 (H kv Hi)); auto.
+  - apply all2_ext_in. intros p q Hp Hq. rewrite Forall_forall in H. f_equal.
+    apply H; auto; [apply (forallb_In _ _ Nx p Hp)|apply (forallb_In _ _ Ny q Hq)].
+Qed.
+
+Lemma copy_witness :
+  disjointb Witness.dom_x (readdr 100 Witness.dom_x) = true /\
+  gen_deep_eq Witness.E Witness.M Witness.dom_x (readdr 100 Witness.dom_x) = true.
+Proof. vm_compute. repeat split. Qed.
+
+Lemma pk_witness :
+  heap_okb Witness.sk_x Witness.sk_y = true /\
+  same_pk Witness.sk_x Witness.sk_y = false /\ gen_deep_eq Witness.E Witness.M Witness.sk_x Witness.sk_y = false /\
+  same Witness.sk_x Witness.sk_y = true.
+Proof. vm_compute. repeat split. Qed.
+
+Theorem validate_set_pk_spec e et l :
+  set_domain_pk e et l = true ->
+  (validate_set e et l = false <->
+   exists i j, (i < j < length l)%nat /\ same_pk (nth i l HNil) (nth j l HNil) = true).
+Proof.
+  intros Hd. unfold validate_set_gen. rewrite negb_false_iff.
+  rewrite (has_dup_ext_pairwise _ (deq e et) same_pk l Hd).
+  - apply has_dup_nth.
+  - intros a b Hab. apply andb_true_iff in Hab as [Hab Hh]. apply andb_true_iff in Hab as [Ha Hb].
+    eapply deq_same_pk; eauto.
+Qed.
